@@ -197,10 +197,16 @@ class FastEngine(Engine):
 
     def call(self, name, gens, args):
         m = re.match(r"^<(Self|[A-Z]) as (.+)>::(\w+)$", name)
-        if m and args:
-            v = deref(args[0])
-            tag = v.tag if isinstance(v, Agg) else (v.enum if isinstance(v, En) else None)
+        if m:
+            tag = None
+            if args:
+                v = deref(args[0])
+                tag = v.tag if isinstance(v, Agg) else (v.enum if isinstance(v, En) else None)
             if tag: name = f"<{tag} as {m.group(2)}>::{m.group(3)}"
+            else:
+                # receiver is not a struct/enum value (ident, string, iterator, ...): only a library model can apply
+                n, g = strip_turbofish(name)
+                return dispatch_models(self, n, g, args)
         key = ("prep", name)
         t = self.cache.get(key)
         if t is None: t = self.prepare_call(name); self.cache[key] = t
